@@ -55,6 +55,9 @@ LINES = [
     # shell variables and braces that look like the place-holders of a backend's script template
     'cores=3; memory=9; echo "n=${cores} m=${memory}g q=${queue:-none}"', "echo '{cores} {memory} {queue} {job_name}'",
     "echo {std_out} {std_err} > made_{i}.tpl", "echo ${job_name:-unnamed} {walltime} {account}",
+    # characters that Python's str.splitlines() treats as line ends but the shell does not
+    "printf 'left\rright' > made_{i}.cr", "echo 'page1\x0cpage2'", "echo 'a\x0bb' 'fs\x1cgs\x1drs\x1eend'",
+    "echo 'nel\x85x ls\u2028x ps\u2029x'", "cat <<EOF\ncr\rlf in a here document\nEOF",
 ]
 FAILING = ["false", "exit 3", "test -f definitely_missing", "(exit 7)", "ls /nonexistent_dir_xyz 2>/dev/null", "[ 1 = 2 ]"]
 
@@ -377,9 +380,14 @@ def run_case(case):
                 viols.append(Violation({"kind": "stderr-differs", **sig}, f"log {se!r} vs reference stderr {rerr!r}"))
             lo = proj.gwf(["logs", "--no-pager", "T"])
             le = proj.gwf(["logs", "--no-pager", "-e", "T"])
-            if lo.code != 0 or not lo.out.encode().rstrip(b"\n").endswith(rout.rstrip(b"\n")):
+            # `gwf logs` is a viewer reading text: the file is compared byte for byte above, what the viewer prints
+            # is compared up to the representation of line ends (a lone CR or CR LF may be shown as LF)
+            def shown_as_text(bs):
+                return bs.replace(b"\r\n", b"\n").replace(b"\r", b"\n").rstrip(b"\n")
+
+            if lo.code != 0 or not shown_as_text(lo.out.encode()).endswith(shown_as_text(rout)):
                 viols.append(Violation({"kind": "gwf-logs-stdout"}, lo.brief()))
-            if le.code != 0 or not le.out.encode().rstrip(b"\n").endswith(rerr.rstrip(b"\n")):
+            if le.code != 0 or not shown_as_text(le.out.encode()).endswith(shown_as_text(rerr)):
                 viols.append(Violation({"kind": "gwf-logs-stderr"}, le.brief()))
         elif mode == "merged":
             if so is None or sorted(so.splitlines()) != sorted((rout + rerr).splitlines()):
